@@ -1,4 +1,5 @@
 """C17 family: pxssh.login() against a scripted ssh client/server dialogue."""
+import os
 import re
 import signal
 
@@ -62,7 +63,7 @@ def generate(rng):
         'sync_multiplier': rng.choice([1, 1, 0.5, 2]),
     }
     if rng.random() < 0.2:
-        scn['opts']['ssh_key'] = True
+        scn['opts']['ssh_key'] = rng.choice([True, 'KEYFILE'])      # the agent socket, or a private key file (resolved at run time)
     if rng.random() < 0.2:
         scn['opts']['port'] = 2222
     scn['timeout'] = rng.choice([2, 30])
@@ -286,6 +287,8 @@ def run(scn):
         w.begin_op(0)
         w.note('op', (0, 'login'))
         opts = dict(scn.get('opts', {}))
+        if opts.get('ssh_key') == 'KEYFILE':
+            opts['ssh_key'] = os.path.abspath(__file__)              # any existing regular file will do for `-i`
         t0 = w.now
         res = None
         exc = None
